@@ -224,7 +224,7 @@ def c14(cx):
         if r['bad']:
             cx.violations.append({'kind': 'hash-seed', 'program': r['name'], 'prop': 'C14', 'field': 'hash-seed', 'where': str(r['bad']),
                                   'detail': f"`tealer --json - detect` output under PYTHONHASHSEED in {r['bad']} differs byte-wise from PYTHONHASHSEED=0", 'src': r['src'], 'env': None})
-    mres = engine.run_items_with(c14_multi_one, c14_multi_items(cx, 12 if cx.quick() else 150))
+    mres = engine.run_items_with(c14_multi_one, c14_multi_items(cx, 12 if cx.quick() else 60))
     for r in mres:
         runs += r['runs']; cx.distinct.add(r['name'])
         for kind, detail in r['viol'][:3]:
